@@ -57,13 +57,20 @@ func (l *live) step() {
 		}
 	}(l)
 	r := func() (s string) {
+		done := false
 		defer func() {
-			if p := recover(); p != nil {
-				s = fmt.Sprintf("PANIC(%v)", p)
+			if p := recover(); !done {
+				if p == nil {
+					s = "PANIC(nil)"
+				} else {
+					s = fmt.Sprintf("PANIC(%v)", p)
+				}
 			}
 		}()
 		ok := l.gen.MoveNext()
-		return fmt.Sprintf("%v:%d", ok, l.gen.Current())
+		s = fmt.Sprintf("%v:%d", ok, l.gen.Current())
+		done = true
+		return
 	}()
 	l.obs = append(l.obs, fmt.Sprintf("%s[%s]", r, strings.Join(st.Log[before:], ",")))
 }
